@@ -55,6 +55,11 @@ type c08Event struct {
 	Token  string `json:"token,omitempty"`
 	HoldLo int64  `json:"hold_from,omitempty"`
 	HoldHi int64  `json:"hold_to,omitempty"`
+	// how the holder gave the lock up (contend): "unlock" / "lease" with the call's window and outcome, "" = abandoned
+	RelOp  string `json:"rel_op,omitempty"`
+	RelInv int64  `json:"rel_inv,omitempty"`
+	RelRet int64  `json:"rel_ret,omitempty"`
+	RelErr string `json:"rel_err,omitempty"`
 }
 
 func genC08(t *rapid.T, kind string) *c08Case {
@@ -158,10 +163,12 @@ func runC08(c *c08Case) (v *vcommon.Violation, nontrivial, inconclusive bool) {
 					u := pc.unlock(ctx, key, r.Token)
 					after = append(after, c08Event{Who: i, Op: "unlock", Path: l.Path, Err: u.Err, Inv: u.Inv, Ret: u.Ret})
 					ev.HoldHi = min64(u.Inv, expiry)
+					ev.RelOp, ev.RelInv, ev.RelRet, ev.RelErr = "unlock", u.Inv, u.Ret, u.Err
 				case "lease":
 					le := pc.lease(ctx, key, r.Token, l.LeaseMs)
 					after = append(after, c08Event{Who: i, Op: "lease", Path: l.Path, Err: le.Err, Inv: le.Inv, Ret: le.Ret})
 					ev.HoldHi = min64(le.Inv, expiry)
+					ev.RelOp, ev.RelInv, ev.RelRet, ev.RelErr = "lease", le.Inv, le.Ret, le.Err
 					if le.Err == "" {
 						// held without interruption until the new expiry
 						ev.HoldHi = le.Inv + l.LeaseMs*1e6 - c08Guard
@@ -203,6 +210,43 @@ func runC08(c *c08Case) (v *vcommon.Violation, nontrivial, inconclusive bool) {
 				ev.HoldHi = end
 			}
 			locks = append(locks, ev)
+		}
+		// A Lock that was invoked while another client certainly held the lock was granted after that hold had
+		// ended, so its own timeout runs from there, not from its invocation ("released automatically no earlier
+		// than that timeout" counts from the moment the lock was taken). One level of refinement, from the
+		// conservative intervals computed above.
+		first := append([]c08Event(nil), locks...)
+		for i := range locks {
+			b := &locks[i]
+			l := c.Lockers[b.Who]
+			if l.Timeout == 0 {
+				continue
+			}
+			from := b.Inv
+			for _, a := range first {
+				if a.Who != b.Who && a.HoldLo < a.HoldHi && a.HoldLo <= b.Inv && b.Inv <= a.HoldHi && a.HoldHi > from {
+					from = a.HoldHi
+				}
+			}
+			if from == b.Inv {
+				continue
+			}
+			expiry := from + l.Timeout*1e6 - c08Guard
+			switch {
+			case b.RelOp == "":
+				b.HoldHi = expiry
+			case b.RelOp == "lease" && b.RelErr == "":
+				// already "until the new expiry"
+			default:
+				b.HoldHi = min64(b.RelInv, expiry)
+			}
+			if b.HoldHi > end {
+				b.HoldHi = end
+			}
+			// the holder's own Unlock / Lease, completed while its lock certainly had not expired, cannot be refused
+			if b.RelOp != "" && b.RelErr != "" && !strings.HasPrefix(b.RelErr, "other:") && b.RelRet < expiry {
+				return fail("holder-refused", "locker %d (%s) took the lock (timeout %d ms) after %.2f ms of waiting for locker(s) before it; its own %s, finished %.2f ms before the earliest possible expiry, failed with %s", b.Who, pathNames[b.Path], l.Timeout, float64(from-b.Inv)/1e6, b.RelOp, float64(expiry-b.RelRet)/1e6, b.RelErr), true, false
+			}
 		}
 		for i := range locks {
 			for j := i + 1; j < len(locks); j++ {
